@@ -123,6 +123,8 @@ def _work(job: tuple[int, str, bool, int, bool]) -> tuple[int, str, str, float, 
     short = min(timeout_ms, 3000)
     r, model, why = _run_z3(smt, short)
     backend = "z3"
+    if cover and timeout_ms <= short and r in ("unknown", "error"):
+        return i, "undecided", "z3", time.time() - t0, {}, f"cover: z3 {why or r} within {short} ms (no portfolio for covers of this function)"
     if r == "sat" and "$unvalidated" in model and not cover:
         # a refutation needs a checked model or the second solver's agreement
         r2, why2 = _run_cvc5(smt, timeout_ms)
@@ -168,12 +170,15 @@ def _work(job: tuple[int, str, bool, int, bool]) -> tuple[int, str, str, float, 
     return i, st, backend, dt, model, why
 
 
-def discharge(obls: list[Obligation], timeout_ms: int = 10000, procs: int | None = None, cross: bool = False) -> list[Verdict]:
+def discharge(obls: list[Obligation], timeout_ms: int = 10000, procs: int | None = None, cross: bool = False, cheap_covers: frozenset = frozenset()) -> list[Verdict]:
     jobs = []
     for i, o in enumerate(obls):
         cover = o.clause.startswith("cover")
         # trivial goals need no solver
-        jobs.append((i, to_smt2(o, cover), cover, timeout_ms, cross))
+        # covers of functions whose Spec facts are kept out of the feasibility solver (dead paths tolerated) are hard `sat`
+        # queries: one short z3 attempt only; an undecided cover there is reported, not an error (report.py)
+        t_ms = 3000 if cover and o.fn in cheap_covers else timeout_ms
+        jobs.append((i, to_smt2(o, cover), cover, t_ms, cross))
     procs = procs or min(16, os.cpu_count() or 4)
     out: list[Verdict | None] = [None] * len(obls)
     if not jobs:
